@@ -20,6 +20,10 @@ pub fn gen(seed: u64, tier: Tier) -> ScenarioSpec {
     let live = rng.chance(1, 2);
     let mut spec = gen::base_spec(P, if live { "S2" } else { "S1" }, seed, rec);
     spec.stream = gen::gen_stream(&mut rng, len, true);
+    spec.compression = *rng.pick(&[Compression::None, Compression::Lz4, Compression::Zstd]);
+    if !live && rng.chance(1, 3) {
+        spec.knobs.insert("via_slpp".into(), 1);
+    }
     if live {
         spec.api = Api::Incremental;
         if rng.chance(1, 2) {
@@ -42,6 +46,30 @@ pub fn run(spec: &ScenarioSpec, ctx: &mut Ctx) -> Result<(), Violation> {
         let fr = guarded(|| game.frame(r)).map_err(|c| caught_violation(P, "Game::frame", &c))?;
         let n = s2::check_row_view(&game.frames, r, &fr, m.v).map_err(|f| fail_v(P, f))?;
         ctx.checks(n);
+    }
+    // the finished representation also comes out of the .slpp reader (Arrow import): same contract
+    if spec.knob("via_slpp") != 0 {
+        let wz = crate::pipeline::write_slpp(game, &SinkSpec::default(), spec.compression);
+        if is_o7(m.v, &wz.res) {
+            ctx.skip("versions 3.0-3.6 cannot be written as .slpp (known finding of C02)");
+        } else if let crate::pipeline::Res::Ok(()) = wz.res {
+            if let crate::pipeline::Res::Ok(g2) = crate::pipeline::read_slpp(&wz.data, &StreamSpec::default(), false).res {
+                for r in 0..g2.frames.len() {
+                    let fr = guarded(|| g2.frame(r)).map_err(|c| caught_violation(P, "Game::frame(after .slpp)", &c))?;
+                    let n = s2::check_row_view(&g2.frames, r, &fr, m.v).map_err(|f| {
+                        let mut v = fail_v(P, f);
+                        v.site = format!("after-slpp {}", v.site);
+                        v
+                    })?;
+                    ctx.checks(n);
+                }
+                ctx.probe("row view of a game imported from Arrow");
+            } else {
+                ctx.skip("archive could not be read back (owned by C02)");
+            }
+        } else {
+            ctx.skip("archive could not be written (owned by C02)");
+        }
     }
     ctx.rep.nontrivial = !m.occs.is_empty();
     Ok(())
